@@ -34,7 +34,12 @@ def const_lens(rng, s, form):
     """row-length vector in which the number `s` occurs as: the number of rows / of cells / the length of one row / the length of a run
     of empty rows / the number of non-empty rows"""
     short = lambda: rng.choice([0, 1, 1, 2])
-    if form == "rows":
+    if form == "rows" and rng.random() < 0.3:
+        lens = [rng.choice([1, 1, 2, 3])] * s          # s rows, all equally long
+    elif form == "cells" and rng.random() < 0.3 and any(s % k == 0 for k in (2, 3, 4, 5, 8)):
+        k = rng.choice([k for k in (2, 3, 4, 5, 8) if s % k == 0])
+        lens = [k] * (s // k)                          # s cells in equally long rows
+    elif form == "rows":
         lens = [short() for _ in range(s)]
         if rng.random() < 0.5:
             lens[-1] = max(1, lens[-1])
